@@ -17,6 +17,10 @@ structure MethodRec where
   reassign : Bool
   /-- applies the native mutator to `self` through `super()` -/
   superCall : Bool
+  /-- the re-assignment is made only `if getattr(self, "_instance", None)`: skipped when the owning
+      instance is falsy (`Structure.__bool__`: no attribute holds a value) — only a kept reference
+      can meet such an instance -/
+  condInstance : Bool := false
 deriving Repr, DecidableEq, Inhabited
 
 structure AccessorRec where
